@@ -29,7 +29,9 @@ CLIFLAG = {"url": "--url", "ofxhome": "--ofxhome", "org": "--org", "fid": "--fid
            "clientuid": "--clientuid", "version": "--version", "pretty": "--pretty", "nonewfileuid": "--nonewfileuid",
            "skipprofile": "--skipprofile", "checking": "-C", "savings": "-S", "moneymrkt": "-M", "creditline": "-L",
            "creditcard": "-c", "investment": "-i"}
-POOL = {"url": ["https://a.invalid/ofx", "https://b.invalid/?a=1%20b", "https://c.invalid/x;y=z&k=v%41", "https://fi.invalid/ofx"],
+POOL = {"url": ["https://a.invalid/ofx", "https://b.invalid/?a=1%20b", "https://c.invalid/x;y=z&k=v%41", "https://fi.invalid/ofx",
+                # (a URL is taken as typed: an empty query / fragment marker or an upper-case scheme is not "cleaned up")
+                "https://q.invalid/ofx.dll?", "https://f.invalid/ofx#", "HTTPS://Up.invalid/OFX"],
         "ofxhome": ["424", "555"], "org": ["ORG", "O&G", "Org 2"], "fid": ["1", "7007"], "brokerid": ["brk.com", "b2"],
         "bankid": ["111", "222"], "appid": ["QWIN", "APP"], "appver": ["2700", "1"], "language": ["ENG", "FRA"],
         "useragent": ["ua/1", "x y"], "user": ["usr", "u2"], "clientuid": ["CUID-1", "cuid2"],
@@ -94,6 +96,8 @@ def run(ctx):
     def responder(url, body):
         if b"<PROFRQ>" in body:
             return ofx_server.profile(mins, url).encode()
+        if b"<ACCTINFORQ>" in body:
+            return ofx_server.acctinfo(mins, []).encode()        # (no accounts: discovery is C19's)
         return ofx_server.empty_response(mins).encode()
     env.responder = responder
     import ofxtools.scripts.ofxget as og0
@@ -115,7 +119,7 @@ def run(ctx):
             fidb[s] = sect
         env.write_fidb("".join("[%s]\n%s\n" % (s, "".join("%s = %s\n" % kv for kv in sect.items())) for s, sect in fidb.items()))
         # (the URL of 424 has '&' followed by names that are HTML entities without their ';')
-        home = {"424": Lookup("https://home424.invalid/ofx?lang=en&region=us&copy=1", "HOME&ORG <1>", "4240", "home.brk"),
+        home = {"424": Lookup("https://home424.invalid/ofx?lang=en&region=us&copy=1", "HOME&ORG <1>", rnd.choice(["4240", "A & B 42"]), "home.brk"),
                 "555": Lookup("https://home555.invalid/?q=%7E", "H5", None, None)}
         env.ofxhome = home
         env.ofxhome_wire = h % 3 != 0        # mostly through the real ofxhome.lookup over a fake OFX Home (XML records)
@@ -173,7 +177,17 @@ def run(ctx):
                     blank.add(o)
             write = rnd.random() < 0.55
             dry = rnd.random() < 0.2
-            argv = ["stmt", srv, "--password", password]
+            # (every command that takes the settings; acctinfo needs a user from somewhere)
+            cmd = rnd.choice(["stmt", "stmt", "stmt", "stmtend", "prof", "acctinfo"])
+            if cmd == "acctinfo" and "user" not in cli:
+                cli["user"] = rnd.choice(POOL["user"])
+            if cmd == "prof":
+                cli = {o: v for o, v in cli.items() if o not in LIST_OPTS and o not in ("bankid", "brokerid")}
+            if cmd == "acctinfo":
+                cli = {o: v for o, v in cli.items() if o not in LIST_OPTS and o not in ("bankid", "brokerid")}
+            if cmd == "stmtend":
+                cli = {o: v for o, v in cli.items() if o not in ("investment", "brokerid")}
+            argv = [cmd, srv, "--password", password]
             for o, v in cli.items():
                 if o in LIST_OPTS:
                     for x in v:
